@@ -7,7 +7,7 @@ form compared with the Lean model (`lean/RichModel/Model/Live.lean`).  Operation
     ("BL",) console.log() with no arguments     ("R",) refresh
     ("P", lines, how)     user output of `lines` (each newline-terminated); how = "seg" (a renderable that
                           yields the lines), "str" (console.print of a str), "log" (console.log), "py"
-                          (builtin print through the redirected sys.stdout)
+                          (one sys.stdout.write of complete lines through the redirected sys.stdout)
     ("U", lines, refresh) Live.update(renderable that yields `lines`) / Status.update(status="\\n".join(lines))
     ("A", desc, visible)  Progress.add_task     ("V", id, n) Progress.advance
     ("H", id, visible, refresh) Progress.update(id, visible=…, refresh=…)      ("D", id) Progress.remove_task
@@ -142,7 +142,8 @@ def _emit_user(console, how, lines, style):
     elif how == "log":
         console.log("\n".join(lines))
     elif how == "py":
-        print("\n".join(lines))
+        # one write() of complete lines through the FileProxy installed as sys.stdout -> one console.print
+        sys.stdout.write("\n".join(lines) + "\n")
     else:
         raise ValueError(how)
 
